@@ -117,6 +117,7 @@ type hist struct {
 	badV2   int  // 0 none; malformed stream: 1 wrong root, 2 wrong count, 3 v2 before any leaf, 4 duplicate GER, 5 timestamp >= 2^63
 	pV2     int
 	prevUpd [][2]string
+	badDone bool // a mismatching announcement has been generated
 }
 
 func newHist(r *hlib.Rng) *hist {
@@ -174,9 +175,11 @@ func (h *hist) block(maxEv int) Op {
 				v2 := Log{T: "v2", Idx: idx, Root: hlib.Hex(tree.root().Bytes()), Count: tree.n, BH: op.Parent, MinTs: op.Ts}
 				switch {
 				case h.badV2 == 1 && r.Intn(3) == 0:
-					v2.Root = rnd32(r)
+					v2.Root = rnd32(r) // wrong root, right count
+					h.badDone = true
 				case h.badV2 == 2 && r.Intn(3) == 0:
-					v2.Count += uint32(1 + r.Intn(2))
+					v2.Count += uint32(1 + r.Intn(2)) // right root, wrong count
+					h.badDone = true
 				}
 				op.Logs = append(op.Logs, v2)
 			}
@@ -245,6 +248,21 @@ func genC11(r *hlib.Rng, n int, malformed int) In {
 		if r.Intn(9) == 0 {
 			in.Ops = append(in.Ops, snapOp())
 		}
+	}
+	if (malformed == 1 || malformed == 2) && !h.badDone {
+		// make sure the stream contains its mismatching announcement: one more block with an update and a bad V2
+		op := h.header()
+		mer, rer := rnd32(r), rnd32(r)
+		tree := h.st.tree
+		tree.add(leafHashOf(mer, rer, op.Parent, op.Ts))
+		v2 := Log{T: "v2", Idx: 1, Root: hlib.Hex(tree.root().Bytes()), Count: tree.n, BH: op.Parent, MinTs: op.Ts}
+		if malformed == 1 {
+			v2.Root = rnd32(r)
+		} else {
+			v2.Count++
+		}
+		op.Logs = []Log{{T: "upd", Idx: 0, Mer: mer, Rer: rer}, v2}
+		in.Ops = append(in.Ops, op, snapOp(), h.block(2))
 	}
 	in.Ops = append(in.Ops, snapOp())
 	return in
